@@ -95,7 +95,7 @@ def fxStat : Stat → List Loc
   | .do_ b _ => fxBlock b
   | .while_ c b _ => fxExp c ++ fxBlock b
   | .repeat_ b c _ => fxBlock b ++ fxExp c
-  | .if_ cs bs _ => fxExps cs ++ fxBlocks bs
+  | .if_ cs bs _ _ => fxExps cs ++ fxBlocks bs
   | .fornum _ _ i l s b _ => fxExp i ++ fxExp l ++ fxExp s ++ fxBlock b
   | .forin _ es b _ => fxExps es ++ fxBlock b
   | .assign vs es _ =>
